@@ -161,6 +161,14 @@ package model
 //@   ensures [C12:D2-second-root] !old(haskey(m.PacketsMap, packet.Name)) && packet.IsRoot && old(m.RootPacket) != nil ==> oneMoreError(m, old(len(m.SyntaxErrors)), packet.Line) && m.RootPacket == old(m.RootPacket)
 //@   ensures [C12:D2-accept] !old(haskey(m.PacketsMap, packet.Name)) && !(packet.IsRoot && old(m.RootPacket) != nil) ==> len(m.SyntaxErrors) == old(len(m.SyntaxErrors)) && m.PacketsMap[packet.Name] == packet && len(m.Packets) == old(len(m.Packets)) + 1 && m.Packets[old(len(m.Packets))] == packet && (packet.IsRoot ==> m.RootPacket == packet) && (!packet.IsRoot ==> m.RootPacket == old(m.RootPacket))
 
+//@ func (*BinaryModel).AddPacket
+//@   ensures [C12:D2-frame] len(m.SyntaxErrors) >= old(len(m.SyntaxErrors)) && len(m.Packets) >= old(len(m.Packets)) && forall(q, 0, old(len(m.Packets)), m.Packets[q] == old(m.Packets[q])) && forallkeyold(k, m.PacketsMap, haskey(m.PacketsMap, k))
+
+//@ func (*BinaryModel).AddMetaData
+//@   ensures len(m.SyntaxErrors) >= old(len(m.SyntaxErrors))
+//@ func (*BinaryModel).AddOption
+//@   ensures len(m.SyntaxErrors) >= old(len(m.SyntaxErrors))
+
 //@ func (*BinaryModel).AddMetaData
 //@   ensures [C12:D3-duplicate] old(haskey(m.MetaDataMap, metaData.Name)) ==> oneMoreError(m, old(len(m.SyntaxErrors)), metaData.Line) && m.MetaDataMap[metaData.Name].Attr == old(m.MetaDataMap[metaData.Name].Attr)
 //@   ensures [C12:D3-accept] !old(haskey(m.MetaDataMap, metaData.Name)) ==> len(m.SyntaxErrors) == old(len(m.SyntaxErrors)) && haskey(m.MetaDataMap, metaData.Name) && m.MetaDataMap[metaData.Name].Attr == metaData.Attr
